@@ -30,9 +30,18 @@ pub fn rat_of(d: &DecV) -> Rat {
 
 /// Classify an exact result: representable -> Exact; beyond +-Decimal::MAX -> MustErr; otherwise
 /// (in range but needing rounding) -> Unspec.
+/// |r| >= Decimal::MAX + 1: not representable even after rounding to an integer.
+pub fn beyond_range(r: &Rat) -> bool {
+    r.abs().cmp(&dec_max().add(&Rat::from_int(1))) != Ordering::Less
+}
+
 pub fn classify(r: Rat) -> RD {
-    if r.abs().cmp(&dec_max()) == Ordering::Greater {
+    if beyond_range(&r) {
         return RD::MustErr;
+    }
+    if r.abs().cmp(&dec_max()) == Ordering::Greater {
+        // between MAX and MAX+1: rounding may bring it back into range (weaker reading: no verdict)
+        return RD::Unspec;
     }
     if r.as_decimal(28).is_some() {
         RD::Exact(r)
@@ -65,8 +74,10 @@ pub fn binop(op: Op, a: &Rat, b: &Rat) -> RD {
         Op::Div => match a.div(b) {
             None => RD::MustErr,
             Some(q) => {
-                if q.abs().cmp(&dec_max()) == Ordering::Greater {
+                if beyond_range(&q) {
                     RD::MustErr
+                } else if q.abs().cmp(&dec_max()) == Ordering::Greater {
+                    RD::Unspec
                 } else if q.as_decimal(28).is_some() {
                     RD::Exact(q)
                 } else {
@@ -111,7 +122,7 @@ fn pow_ref(a: &Rat, b: &Rat) -> RD {
                 let mut r = Rat::from_int(1);
                 for _ in 0..n {
                     r = r.mul(a);
-                    if r.abs().cmp(&dec_max()) == Ordering::Greater {
+                    if beyond_range(&r) {
                         return RD::MustErr;
                     }
                 }
